@@ -145,7 +145,7 @@ theorem CInv.frame {rem : List Cb} {e0 : EvId} {s s' : KState ℚ σ} (hc : CInv
       have h2 : e < s'.events.size := lt_of_cbs_some s' e L' hL'
       obtain ⟨_, L, hL, hp⟩ := h.fresh e (Nat.le_of_not_lt he) h2
       rw [hL] at hL'; cases hL'; exact hp
-  refine ⟨?_, ?_, ?_, ?_, ?_, ?_, ?_, hc.rem_bld_own, hc.rem_bld_cnt, ?_, ?_, ?_, ?_, ?_, ?_⟩
+  refine ⟨?_, ?_, ?_, ?_, ?_, ?_, ?_, (fun c hm => by rw [hS.ops_eq]; exact hc.rem_bld_own c hm), hc.rem_bld_cnt, ?_, ?_, ?_, ?_, ?_, ?_⟩
   · intro c e he; rw [hS.ops_eq] at he; exact hc.older c e he
   · intro c hg e L' hL'
     have hg' : ¬ Gone rem s c := fun hh => hg ((h.gone_iff rem c).mpr hh)
